@@ -1,6 +1,1133 @@
-//! C16 — stub (not yet implemented; not registered in MANIFEST.json).
-use crate::fw::{CheckDef, Ctx};
+//! C16 — CSV import books each row with the right sign, amount and balance.
+//!
+//! Bounded-exhaustive differential check of `okane import` for CSV against a reference importer
+//! (RefImport, below) written from the property statement and doc/import.ja.md + the doc comments
+//! of cli/src/import/config.rs:
+//!
+//! * configuration space: 12 dimensions (field layout, delimiter, skipped head lines, date format,
+//!   amount | credit+debit, optional columns commodity / balance / note / charge, conversion
+//!   variant, account type, row order); ALL configurations with at most d non-default dimensions;
+//! * statement space: ALL sequences of at most n rows over a row alphabet that depends on the
+//!   configuration (credit, debit, zero, empty / wrong running balance, other-currency rows,
+//!   conversion rows with exact figures, rows with a charge) x ALL same-day / next-day patterns;
+//! * every (configuration, statement) is imported by the real code twice — as a tree through
+//!   `okane::import::import(Format::Csv)` + `Txn::to_double_entry`, and as text through
+//!   `ImportCmd::run` on real files — both are compared with RefImport, and for asset accounts with a
+//!   running-balance column `opening transaction + printed text` is fed to `report::process`.
 
-pub const DEF: CheckDef = CheckDef { id: "C16", run, technique: "stub", rule: "stub", assumptions: &[], shards: 0, hang_s: 20, single_worker: false };
+use std::path::PathBuf;
 
-fn run(_ctx: &mut Ctx) {}
+use chrono::NaiveDate;
+use okane::import::{self, config as icfg, Format};
+use okane_core::parse::{parse_ledger, ParseOptions};
+use okane_core::syntax::{self, expr, plain};
+
+use crate::fw::{CheckDef, Ctx, Outcome};
+use crate::oka;
+use crate::q::{qmap_add, qmap_clean, qmap_show, QMap, Q};
+
+pub const DEF: CheckDef = CheckDef {
+    id: "C16",
+    run,
+    technique: "deviation-bounded exhaustive enumeration of import configurations (all configurations with <= d non-default dimensions out of 12) x exhaustive enumeration of all statements of <= n rows over a configuration-dependent row alphabet x all same-day/next-day date patterns; each case is imported by the real code as a tree (import::import + Txn::to_double_entry) and as text (ImportCmd::run on real files), both compared posting by posting with a reference importer in exact rational arithmetic; for asset accounts with a running-balance column the printed text behind an opening transaction is run through report::process",
+    rule: "case = (configuration, statement). Configuration dimensions (default first): layout {index,label,template '{N}'} x delimiter {',',tab,';'} x skip.head {0,2} x date format {%Y/%m/%d,%Y-%m-%d,%d.%m.%Y} x value columns {amount, credit+debit} x commodity column {absent,present} x running-balance column {present,absent} x note column {absent,present} x charge column {absent,present} x conversion {none, columns price_of_secondary/extract, columns price_of_secondary/compute, columns price_of_primary/extract, columns price_of_primary/compute, rewrite-rule price_of_secondary/compute with fixed commodity, rewrite-rule price_of_primary/extract with fixed commodity, columns present but conversion disabled} x account type {asset, liability} x row_order {old_to_new,new_to_old}; ALL configurations with <= 2 (thorough <= 3) non-default dimensions. Statement: ALL sequences of <= 3 rows (thorough: <= 4 rows for configurations with <= 1 non-default dimension) over the alphabet {credit, debit, zero} + per present column {debit with empty balance cell, debit with a wrong balance; credit/debit in the other currency; credit/debit conversion rows; credit/debit with a charge; other-currency conversion debit; conversion debit with a charge} x EVERY assignment of same-day/next-day to rows 2..n; rows are written newest first when row_order=new_to_old. states = cases, transitions = transactions compared with RefImport (tree + text), validated = cases in which every judged value had exactly one acceptable answer",
+    assumptions: &[
+        "okane's ledger parser is trusted to read the printed text back (C05/C15 decide that); report::process is trusted as the book-keeping referee of the end-to-end clause (C01/C02 decide that)",
+        "DON'T-CARE: the counter-posting value of a row with a non-zero charge when no statement-supplied secondary amount exists (either 'opposite amount' or 'opposite amount net of the charge' is accepted); existence and rate of the charge posting; the sign of the balance assertion for a liability account; order of postings inside a transaction; payee/account of the counter-posting",
+        "values: three commodities (USD primary, EUR other, CHF secondary), rate 1.25, amounts with <= 3 decimals, conversion figures exact; dates 2024-03-05 onwards",
+    ],
+    shards: 64,
+    hang_s: 30,
+    single_worker: false,
+};
+
+// ------------------------------------------------------------------------------------------
+// Configuration space
+
+#[derive(Clone, Copy, PartialEq, Eq, Debug)]
+enum Conv {
+    None,
+    SecExtract,
+    SecCompute,
+    PriExtract,
+    PriCompute,
+    RuleSecCompute,
+    RulePriExtract,
+    Disabled,
+}
+
+impl Conv {
+    fn name(self) -> &'static str {
+        match self {
+            Conv::None => "noconv",
+            Conv::SecExtract => "sec-extract",
+            Conv::SecCompute => "sec-compute",
+            Conv::PriExtract => "pri-extract",
+            Conv::PriCompute => "pri-compute",
+            Conv::RuleSecCompute => "rule-sec-compute",
+            Conv::RulePriExtract => "rule-pri-extract",
+            Conv::Disabled => "conv-disabled",
+        }
+    }
+    fn by_rule(self) -> bool {
+        matches!(self, Conv::RuleSecCompute | Conv::RulePriExtract)
+    }
+    /// true: the rate is the price of the primary (row) commodity; false: of the secondary one.
+    fn price_of_primary(self) -> bool {
+        matches!(self, Conv::PriExtract | Conv::PriCompute | Conv::RulePriExtract)
+    }
+    fn compute(self) -> bool {
+        matches!(self, Conv::SecCompute | Conv::PriCompute | Conv::RuleSecCompute)
+    }
+    /// does a conversion apply to a row whose conversion cells are filled?
+    fn applies(self) -> bool {
+        !matches!(self, Conv::None | Conv::Disabled)
+    }
+}
+
+const CONVS: [Conv; 8] = [Conv::None, Conv::SecExtract, Conv::SecCompute, Conv::PriExtract, Conv::PriCompute, Conv::RuleSecCompute, Conv::RulePriExtract, Conv::Disabled];
+
+/// number of alternatives per dimension (alternative 0 = default)
+const DIMS: [u8; 12] = [3, 3, 2, 3, 2, 2, 2, 2, 2, 8, 2, 2];
+const DIM_NAMES: [&str; 12] = ["layout", "delimiter", "skip", "date", "credit-debit", "commodity-col", "no-balance-col", "note-col", "charge-col", "conversion", "liability", "new-to-old"];
+
+#[derive(Clone, Copy, Debug)]
+struct Cfg {
+    choice: [u8; 12],
+}
+
+impl Cfg {
+    fn layout(&self) -> u8 {
+        self.choice[0]
+    }
+    fn delim(&self) -> char {
+        [',', '\t', ';'][self.choice[1] as usize]
+    }
+    fn skip(&self) -> usize {
+        [0, 2][self.choice[2] as usize]
+    }
+    fn datefmt(&self) -> &'static str {
+        ["%Y/%m/%d", "%Y-%m-%d", "%d.%m.%Y"][self.choice[3] as usize]
+    }
+    fn crdr(&self) -> bool {
+        self.choice[4] == 1
+    }
+    fn ccy_col(&self) -> bool {
+        self.choice[5] == 1
+    }
+    /// the running-balance column is part of the DEFAULT configuration (its absence is the deviation), so that the
+    /// end-to-end clause is exercised together with every other pair of features
+    fn bal_col(&self) -> bool {
+        self.choice[6] == 0
+    }
+    fn note_col(&self) -> bool {
+        self.choice[7] == 1
+    }
+    fn fee_col(&self) -> bool {
+        self.choice[8] == 1
+    }
+    fn conv(&self) -> Conv {
+        CONVS[self.choice[9] as usize]
+    }
+    fn liability(&self) -> bool {
+        self.choice[10] == 1
+    }
+    fn new_to_old(&self) -> bool {
+        self.choice[11] == 1
+    }
+    fn account(&self) -> &'static str {
+        if self.liability() {
+            "Liabilities:Card"
+        } else {
+            "Assets:Bank"
+        }
+    }
+    fn deviations(&self) -> usize {
+        self.choice.iter().filter(|c| **c != 0).count()
+    }
+    fn describe(&self) -> String {
+        let v: Vec<String> = self.choice.iter().enumerate().filter(|(_, c)| **c != 0).map(|(i, c)| if DIMS[i] == 2 { DIM_NAMES[i].to_string() } else if i == 9 { self.conv().name().to_string() } else { format!("{}={}", DIM_NAMES[i], c) }).collect();
+        if v.is_empty() {
+            "default".into()
+        } else {
+            v.join("+")
+        }
+    }
+    /// coarse shape used in violation signatures
+    fn value_shape(&self) -> String {
+        format!("{}-{}", if self.crdr() { "credit/debit" } else { "amount" }, if self.liability() { "liability" } else { "asset" })
+    }
+}
+
+/// All configurations with at most `d` non-default dimensions; fewer deviations first, then lexicographic.
+fn configs(d: usize) -> Vec<Cfg> {
+    fn rec(pos: usize, left: usize, cur: &mut [u8; 12], out: &mut Vec<Cfg>) {
+        if pos == DIMS.len() {
+            out.push(Cfg { choice: *cur });
+            return;
+        }
+        cur[pos] = 0;
+        rec(pos + 1, left, cur, out);
+        if left > 0 {
+            for a in 1..DIMS[pos] {
+                cur[pos] = a;
+                rec(pos + 1, left - 1, cur, out);
+            }
+            cur[pos] = 0;
+        }
+    }
+    let mut out = vec![];
+    rec(0, d, &mut [0u8; 12], &mut out);
+    out.sort_by_key(|c| c.deviations()); // stable: lexicographic order kept inside a deviation class
+    out
+}
+
+// ------------------------------------------------------------------------------------------
+// Physical CSV layout and the YAML configuration text
+
+const PRIMARY: &str = "USD";
+const OTHER: &str = "EUR";
+const SECONDARY: &str = "CHF";
+const RATE: &str = "1.25";
+const FEE: &str = "2.50";
+
+/// (field key in the configuration, header label) in physical column order. "-" = a column no field maps to.
+fn columns(cfg: &Cfg) -> Vec<(&'static str, &'static str)> {
+    let mut v = vec![("date", "Date"), ("-", "Ref"), ("payee", "Payee")];
+    if cfg.bal_col() {
+        v.push(("balance", "Balance"));
+    }
+    if cfg.crdr() {
+        v.push(("credit", "Paid in"));
+        v.push(("debit", "Paid out"));
+    } else {
+        v.push(("amount", "Amount"));
+    }
+    if cfg.ccy_col() {
+        v.push(("commodity", "Ccy"));
+    }
+    if cfg.note_col() {
+        v.push(("note", "Note"));
+    }
+    if cfg.fee_col() {
+        v.push(("charge", "Fee"));
+    }
+    if cfg.conv() != Conv::None {
+        v.push(("rate", "Rate"));
+        v.push(("secondary_amount", "Sec amount"));
+        if !cfg.conv().by_rule() {
+            v.push(("secondary_commodity", "Sec ccy"));
+        }
+    }
+    v
+}
+
+fn config_yaml(cfg: &Cfg) -> String {
+    let mut s = String::new();
+    s.push_str("path: c16stmt\nencoding: UTF-8\n");
+    s.push_str(&format!("account: \"{}\"\n", cfg.account()));
+    s.push_str(&format!("account_type: {}\n", if cfg.liability() { "liability" } else { "asset" }));
+    if cfg.fee_col() {
+        s.push_str("operator: Bank Fee Desk\n");
+    }
+    let conv = cfg.conv();
+    let spec = |c: Conv| -> Vec<String> {
+        let mut v = vec![];
+        if c.by_rule() {
+            v.push(format!("commodity: {}", SECONDARY));
+        }
+        if c.compute() {
+            v.push("amount: compute".into());
+        }
+        if c.price_of_primary() {
+            v.push("rate: price_of_primary".into());
+        }
+        if c == Conv::Disabled {
+            v.push("disabled: true".into());
+        }
+        v
+    };
+    let default_spec = if conv.by_rule() { vec![] } else { spec(conv) };
+    if default_spec.is_empty() {
+        s.push_str(&format!("commodity: {}\n", PRIMARY));
+    } else {
+        s.push_str(&format!("commodity:\n  primary: {}\n  conversion:\n", PRIMARY));
+        for l in &default_spec {
+            s.push_str(&format!("    {}\n", l));
+        }
+    }
+    s.push_str("format:\n");
+    s.push_str(&format!("  date: \"{}\"\n", cfg.datefmt()));
+    match cfg.delim() {
+        ',' => {}
+        '\t' => s.push_str("  delimiter: \"\\t\"\n"),
+        c => s.push_str(&format!("  delimiter: \"{}\"\n", c)),
+    }
+    if cfg.skip() > 0 {
+        s.push_str(&format!("  skip:\n    head: {}\n", cfg.skip()));
+    }
+    if cfg.new_to_old() {
+        s.push_str("  row_order: new_to_old\n");
+    }
+    s.push_str("  fields:\n");
+    for (i, (key, label)) in columns(cfg).iter().enumerate() {
+        if *key == "-" {
+            continue;
+        }
+        match cfg.layout() {
+            0 => s.push_str(&format!("    {}: {}\n", key, i + 1)),
+            1 => s.push_str(&format!("    {}: \"{}\"\n", key, label)),
+            _ => {
+                if *key == "date" {
+                    s.push_str(&format!("    {}: {}\n", key, i + 1));
+                } else {
+                    s.push_str(&format!("    {}:\n      template: \"{{{}}}\"\n", key, i + 1));
+                }
+            }
+        }
+    }
+    if conv.by_rule() {
+        s.push_str("rewrite:\n  - matcher:\n      payee: \"^conv\"\n    account: Assets:Wire\n    conversion:\n");
+        for l in spec(conv) {
+            s.push_str(&format!("      {}\n", l));
+        }
+    }
+    s
+}
+
+// ------------------------------------------------------------------------------------------
+// Row alphabet
+
+#[derive(Clone, Copy, PartialEq, Eq, Debug)]
+enum Kind {
+    Credit,
+    Debit,
+    Zero,
+}
+#[derive(Clone, Copy, PartialEq, Eq, Debug)]
+enum BalCell {
+    Right,
+    Empty,
+    Wrong,
+}
+#[derive(Clone, Copy, Debug)]
+struct Letter {
+    kind: Kind,
+    other: bool,
+    bal: BalCell,
+    conv: bool,
+    fee: bool,
+}
+
+impl Letter {
+    fn name(&self) -> String {
+        let mut s = match self.kind {
+            Kind::Credit => "credit",
+            Kind::Debit => "debit",
+            Kind::Zero => "zero",
+        }
+        .to_string();
+        if self.other {
+            s.push_str("-eur");
+        }
+        if self.conv {
+            s.push_str("-conv");
+        }
+        if self.fee {
+            s.push_str("-fee");
+        }
+        match self.bal {
+            BalCell::Right => {}
+            BalCell::Empty => s.push_str("-nobal"),
+            BalCell::Wrong => s.push_str("-wrongbal"),
+        }
+        s
+    }
+    /// magnitude as printed in the statement
+    fn magnitude(&self) -> &'static str {
+        match (self.kind, self.conv, self.other) {
+            (Kind::Zero, _, _) => "0",
+            (Kind::Credit, true, _) => "90.00",
+            (Kind::Debit, true, _) => "45.00",
+            (Kind::Credit, false, true) => "40.00",
+            (Kind::Debit, false, true) => "15.50",
+            (Kind::Credit, false, false) => "1,234.50",
+            (Kind::Debit, false, false) => "7.25",
+        }
+    }
+}
+
+fn alphabet(cfg: &Cfg) -> Vec<Letter> {
+    let l = |kind| Letter { kind, other: false, bal: BalCell::Right, conv: false, fee: false };
+    let mut v = vec![l(Kind::Credit), l(Kind::Debit), l(Kind::Zero)];
+    let has_conv = cfg.conv() != Conv::None;
+    if cfg.bal_col() {
+        v.push(Letter { bal: BalCell::Empty, ..l(Kind::Debit) });
+        v.push(Letter { bal: BalCell::Wrong, ..l(Kind::Debit) });
+    }
+    if cfg.ccy_col() {
+        v.push(Letter { other: true, ..l(Kind::Credit) });
+        v.push(Letter { other: true, ..l(Kind::Debit) });
+    }
+    if has_conv {
+        v.push(Letter { conv: true, ..l(Kind::Credit) });
+        v.push(Letter { conv: true, ..l(Kind::Debit) });
+    }
+    if cfg.fee_col() {
+        v.push(Letter { fee: true, ..l(Kind::Credit) });
+        v.push(Letter { fee: true, ..l(Kind::Debit) });
+    }
+    if cfg.ccy_col() && has_conv {
+        v.push(Letter { other: true, conv: true, ..l(Kind::Debit) });
+    }
+    if cfg.fee_col() && has_conv {
+        v.push(Letter { fee: true, conv: true, ..l(Kind::Debit) });
+    }
+    v
+}
+
+/// number of statements of exactly n rows: |A|^n * 2^(n-1) date patterns
+fn statements_of_len(a: u64, n: u32) -> u64 {
+    if n == 0 {
+        1
+    } else {
+        a.pow(n) * (1u64 << (n - 1))
+    }
+}
+
+/// decode the k-th statement (0-based) over an alphabet of size a with at most max_n rows:
+/// returns (letter indices, same-day flags); shorter statements first, letters lexicographic, date pattern fastest.
+fn decode_statement(mut k: u64, a: u64, max_n: u32) -> (Vec<usize>, Vec<bool>) {
+    for n in 0..=max_n {
+        let cnt = statements_of_len(a, n);
+        if k < cnt {
+            if n == 0 {
+                return (vec![], vec![]);
+            }
+            let pats = 1u64 << (n - 1);
+            let pat = k % pats;
+            let mut w = k / pats;
+            let mut letters = vec![0usize; n as usize];
+            for i in (0..n as usize).rev() {
+                letters[i] = (w % a) as usize;
+                w /= a;
+            }
+            let same: Vec<bool> = (0..n as usize).map(|i| i > 0 && (pat >> (i - 1)) & 1 == 1).collect();
+            return (letters, same);
+        }
+        k -= cnt;
+    }
+    panic!("harness bug: statement index out of range");
+}
+
+// ------------------------------------------------------------------------------------------
+// RefImport: the statement as figures, and the expected booking of every row
+
+fn opening(ccy: &str) -> Q {
+    if ccy == PRIMARY {
+        Q::parse("5000.00")
+    } else {
+        Q::parse("300.00")
+    }
+}
+
+/// what the reference expects of the counter-posting / assertion
+#[derive(Clone, Debug)]
+enum AssertExp {
+    Absent,
+    Exact(String, Q),
+    Magnitude(String, Q),
+}
+
+#[derive(Clone, Debug)]
+struct RefRow {
+    id: String,
+    date: NaiveDate,
+    letter: Letter,
+    ccy: String,
+    /// the cell value(s)
+    amount_cells: Vec<(&'static str, String)>,
+    fee: Option<Q>,
+    /// (rate cell, secondary amount cell, secondary commodity)
+    conv_cells: Option<(String, String, String)>,
+    balance_cell: Option<Q>,
+    // ---- expected booking ----
+    /// posting on the configured account
+    posting: Q,
+    /// acceptable values of the counter-posting, its commodity
+    counter_values: Vec<Q>,
+    counter_ccy: String,
+    /// rate expected on the account posting / on the counter-posting: (commodity of the rate, rate)
+    acct_rate: Option<(String, Q)>,
+    counter_rate: Option<(String, Q)>,
+    assertion: AssertExp,
+    /// every judged value had exactly one acceptable answer
+    definite: bool,
+}
+
+struct RefStatement {
+    rows: Vec<RefRow>, // oldest first
+    /// expected final balance of the account per commodity (opening + postings)
+    final_balance: QMap,
+    commodities: Vec<String>,
+    has_wrong_balance: bool,
+}
+
+fn ref_import(cfg: &Cfg, letters: &[Letter], same: &[bool]) -> RefStatement {
+    let conv = cfg.conv();
+    let rate = Q::parse(RATE);
+    let mut date = oka::date(2024, 3, 5);
+    let mut running = QMap::new();
+    let mut commodities = vec![PRIMARY.to_string()];
+    if cfg.ccy_col() {
+        commodities.push(OTHER.to_string());
+    }
+    for c in &commodities {
+        running.insert(c.clone(), opening(c));
+    }
+    let mut rows = vec![];
+    let mut has_wrong = false;
+    for (i, l) in letters.iter().enumerate() {
+        if i > 0 && !same[i] {
+            date = date.succ_opt().unwrap();
+        }
+        let ccy = if l.other { OTHER } else { PRIMARY }.to_string();
+        let mag = Q::parse(l.magnitude());
+        // the value the statement shows: credit = money into the account, debit = out of it
+        let signed_cell = match l.kind {
+            Kind::Credit | Kind::Zero => mag,
+            Kind::Debit => mag.neg(),
+        };
+        let amount_cells: Vec<(&'static str, String)> = if cfg.crdr() {
+            match l.kind {
+                Kind::Credit | Kind::Zero => vec![("credit", l.magnitude().to_string()), ("debit", String::new())],
+                Kind::Debit => vec![("credit", String::new()), ("debit", l.magnitude().to_string())],
+            }
+        } else {
+            vec![("amount", if l.kind == Kind::Debit { format!("-{}", l.magnitude()) } else { l.magnitude().to_string() })]
+        };
+        // STATEMENT: credit positive, debit negative; an `amount` column negated for a liability account
+        let posting = if !cfg.crdr() && cfg.liability() { signed_cell.neg() } else { signed_cell };
+        let fee = if l.fee { Some(Q::parse(FEE)) } else { None };
+        // the amount that actually changes hands with the counter-party: the account movement net of the charge
+        let net = posting.add(fee.unwrap_or(Q::ZERO));
+        let opposite_sign = |m: Q| if posting.signum() > 0 { m.abs().neg() } else { m.abs() };
+        let applies = l.conv && conv.applies();
+        let sec_ccy = if l.other && !conv.by_rule() { PRIMARY } else { SECONDARY }.to_string();
+        let convert = |x: Q| if conv.price_of_primary() { x.abs().mul(rate) } else { x.abs().div(rate) };
+        let mut conv_cells = None;
+        let (counter_values, counter_ccy, acct_rate, counter_rate);
+        if l.conv {
+            // exact figure of the statement; with amount=compute the statement shows a rounded figure that must be ignored
+            let exact = if conv == Conv::Disabled { net.abs().div(rate) } else { convert(net) };
+            let cell = if conv.compute() { exact.add(Q::parse("0.01")) } else { exact };
+            conv_cells = Some((RATE.to_string(), format!("{}", cell), sec_ccy.clone()));
+        }
+        if applies {
+            counter_ccy = sec_ccy.clone();
+            if conv.compute() {
+                let mut v = vec![opposite_sign(convert(posting))];
+                if fee.is_some() {
+                    v.push(opposite_sign(convert(net)));
+                }
+                counter_values = v;
+            } else {
+                counter_values = vec![opposite_sign(convert(net))];
+            }
+            // the rate is attached to the commodity it prices
+            if conv.price_of_primary() {
+                acct_rate = Some((sec_ccy.clone(), rate));
+                counter_rate = None;
+            } else {
+                acct_rate = None;
+                counter_rate = Some((ccy.clone(), rate));
+            }
+        } else {
+            counter_ccy = ccy.clone();
+            let mut v = vec![posting.neg()];
+            if fee.is_some() {
+                v.push(net.neg());
+            }
+            counter_values = v;
+            acct_rate = None;
+            counter_rate = None;
+        }
+        qmap_add(&mut running, &ccy, posting);
+        let bal_now = running[&ccy];
+        let balance_cell = if !cfg.bal_col() {
+            None
+        } else {
+            match l.bal {
+                BalCell::Right => Some(bal_now),
+                BalCell::Empty => None,
+                BalCell::Wrong => {
+                    has_wrong = true;
+                    Some(bal_now.add(Q::ONE))
+                }
+            }
+        };
+        let assertion = match balance_cell {
+            None => AssertExp::Absent,
+            Some(b) if cfg.liability() => AssertExp::Magnitude(ccy.clone(), b),
+            Some(b) => AssertExp::Exact(ccy.clone(), b),
+        };
+        let definite = counter_values.len() == 1 && !matches!(assertion, AssertExp::Magnitude(..));
+        rows.push(RefRow {
+            id: format!("{} r{}", if l.conv { "conv" } else { "shop" }, i + 1),
+            date,
+            letter: *l,
+            ccy,
+            amount_cells,
+            fee,
+            conv_cells,
+            balance_cell,
+            posting,
+            counter_values,
+            counter_ccy,
+            acct_rate,
+            counter_rate,
+            assertion,
+            definite,
+        });
+    }
+    let mut fb = running.clone();
+    qmap_clean(&mut fb);
+    RefStatement { rows, final_balance: fb, commodities, has_wrong_balance: has_wrong }
+}
+
+/// "1234.5" -> "1,234.50"
+fn money(q: Q) -> String {
+    let s = format!("{}", q);
+    let (neg, body) = match s.strip_prefix('-') {
+        Some(b) => (true, b.to_string()),
+        None => (false, s),
+    };
+    let (ip, fp) = match body.split_once('.') {
+        Some((a, b)) => (a.to_string(), b.to_string()),
+        None => (body, String::new()),
+    };
+    let fp = format!("{:0<2}", fp);
+    let mut g = String::new();
+    for (i, c) in ip.chars().enumerate() {
+        if i > 0 && (ip.len() - i) % 3 == 0 {
+            g.push(',');
+        }
+        g.push(c);
+    }
+    format!("{}{}.{}", if neg { "-" } else { "" }, g, fp)
+}
+
+fn csv_text(cfg: &Cfg, st: &RefStatement) -> String {
+    let d = cfg.delim();
+    let cols = columns(cfg);
+    let quote = |f: &str| -> String {
+        if f.contains(d) || f.contains('"') {
+            format!("\"{}\"", f.replace('"', "\"\""))
+        } else {
+            f.to_string()
+        }
+    };
+    let mut s = String::new();
+    if cfg.skip() > 0 {
+        s.push_str("Exported by Okane Bank\nperiod,2024-03\n");
+    }
+    let ds = d.to_string();
+    s.push_str(&cols.iter().map(|(_, l)| quote(l)).collect::<Vec<_>>().join(&ds));
+    s.push('\n');
+    let line = |r: &RefRow| -> String {
+        cols.iter()
+            .map(|(key, _)| {
+                let cell: String = match *key {
+                    "date" => r.date.format(cfg.datefmt()).to_string(),
+                    "-" => format!("ref{}", r.id.len()),
+                    "payee" => r.id.clone(),
+                    "balance" => r.balance_cell.map(money).unwrap_or_default(),
+                    "amount" | "credit" | "debit" => r.amount_cells.iter().find(|(k, _)| k == key).map(|(_, v)| v.clone()).unwrap_or_default(),
+                    "commodity" => r.ccy.clone(),
+                    "note" => format!("memo {}", r.id),
+                    "charge" => r.fee.map(|f| format!("{}", f)).map(|_| FEE.to_string()).unwrap_or_default(),
+                    "rate" => r.conv_cells.as_ref().map(|c| c.0.clone()).unwrap_or_default(),
+                    "secondary_amount" => r.conv_cells.as_ref().map(|c| c.1.clone()).unwrap_or_default(),
+                    "secondary_commodity" => r.conv_cells.as_ref().map(|c| c.2.clone()).unwrap_or_default(),
+                    _ => panic!("harness bug: unknown column"),
+                };
+                quote(&cell)
+            })
+            .collect::<Vec<_>>()
+            .join(&ds)
+    };
+    if cfg.new_to_old() {
+        for r in st.rows.iter().rev() {
+            s.push_str(&line(r));
+            s.push('\n');
+        }
+    } else {
+        for r in &st.rows {
+            s.push_str(&line(r));
+            s.push('\n');
+        }
+    }
+    s
+}
+
+// ------------------------------------------------------------------------------------------
+// Observation: project an okane transaction (tree or re-parsed text) into plain data
+
+#[derive(Clone, Debug)]
+struct ObsPost {
+    account: String,
+    amount: Option<(Q, String)>,
+    rate: Option<(Q, String)>,
+    /// a cost that is not a plain `@ rate`
+    odd_cost: bool,
+    assertion: Option<(Q, String)>,
+}
+#[derive(Clone, Debug)]
+struct ObsTxn {
+    date: NaiveDate,
+    payee: String,
+    posts: Vec<ObsPost>,
+}
+
+fn eval_expr(e: &expr::Expr<'_>) -> Option<(Q, String)> {
+    match e {
+        expr::Expr::Value(v) => eval_value(v),
+        expr::Expr::Unary(u) => eval_expr(&u.expr).map(|(q, c)| (q.neg(), c)),
+        expr::Expr::Binary(_) => None,
+    }
+}
+fn eval_value(v: &expr::ValueExpr<'_>) -> Option<(Q, String)> {
+    match v {
+        expr::ValueExpr::Amount(a) => Some((Q::from_decimal(a.value.value), a.commodity.to_string())),
+        expr::ValueExpr::Paren(e) => eval_expr(e),
+    }
+}
+
+fn observe(t: &plain::Transaction<'_>) -> ObsTxn {
+    ObsTxn {
+        date: t.date,
+        payee: t.payee.to_string(),
+        posts: t
+            .posts
+            .iter()
+            .map(|p| {
+                let (rate, odd_cost) = match p.amount.as_ref().and_then(|a| a.cost.as_ref()) {
+                    None => (None, false),
+                    Some(syntax::Exchange::Rate(r)) => match eval_value(r) {
+                        Some(x) => (Some(x), false),
+                        None => (None, true),
+                    },
+                    Some(syntax::Exchange::Total(_)) => (None, true),
+                };
+                ObsPost {
+                    account: p.account.to_string(),
+                    amount: p.amount.as_ref().and_then(|a| eval_value(&a.amount)),
+                    rate,
+                    odd_cost: odd_cost || p.amount.as_ref().map(|a| a.lot.price.is_some() || a.lot.date.is_some() || a.lot.note.is_some()).unwrap_or(false),
+                    assertion: p.balance.as_ref().and_then(eval_value),
+                }
+            })
+            .collect(),
+    }
+}
+
+fn show_obs(t: &ObsTxn) -> String {
+    let mut s = format!("{} {}", t.date, t.payee);
+    for p in &t.posts {
+        s.push_str(&format!(
+            " | {} {}{}{}",
+            p.account,
+            p.amount.as_ref().map(|(q, c)| format!("{} {}", q, c)).unwrap_or_else(|| "<none>".into()),
+            p.rate.as_ref().map(|(q, c)| format!(" @ {} {}", q, c)).unwrap_or_default(),
+            p.assertion.as_ref().map(|(q, c)| format!(" = {} {}", q, c)).unwrap_or_default()
+        ));
+    }
+    s
+}
+
+const FEE_ACCOUNT: &str = "Expenses:Commissions";
+
+/// Compare the imported transactions (oldest first) with RefImport. `via` = "tree" | "text".
+fn judge(via: &str, cfg: &Cfg, st: &RefStatement, got: &[ObsTxn]) -> Result<(), (String, String)> {
+    let order = if cfg.new_to_old() { "new-to-old" } else { "old-to-new" };
+    if got.len() != st.rows.len() {
+        return Err((format!("{}/row-count/{}", via, order), format!("{} rows in the statement, {} transactions imported", st.rows.len(), got.len())));
+    }
+    // oldest first: the i-th transaction is the i-th oldest row
+    for (i, (r, g)) in st.rows.iter().zip(got).enumerate() {
+        if !g.payee.contains(&r.id) || g.date != r.date {
+            let seq: Vec<String> = got.iter().map(|g| format!("{} {}", g.date, g.payee)).collect();
+            return Err((format!("{}/not-oldest-first/{}", via, order), format!("transaction {} should be row '{}' of {} but is '{}' of {}; output order: {:?}", i + 1, r.id, r.date, g.payee, g.date, seq)));
+        }
+    }
+    for (r, g) in st.rows.iter().zip(got) {
+        let shape = format!("{}/{}", cfg.value_shape(), r.letter.name());
+        let convshape = format!("{}/{}", cfg.conv().name(), r.letter.name());
+        let ctx = |what: &str| format!("row '{}': {}; imported: {}", r.id, what, show_obs(g));
+        let acct: Vec<&ObsPost> = g.posts.iter().filter(|p| p.account == cfg.account()).collect();
+        let fees: Vec<&ObsPost> = g.posts.iter().filter(|p| p.account == FEE_ACCOUNT).collect();
+        let others: Vec<&ObsPost> = g.posts.iter().filter(|p| p.account != cfg.account() && p.account != FEE_ACCOUNT).collect();
+        if acct.len() != 1 {
+            return Err((format!("{}/account-posting/count/{}", via, shape), ctx(&format!("expected exactly one posting on {}", cfg.account()))));
+        }
+        if others.len() != 1 {
+            return Err((format!("{}/counter-posting/count/{}", via, shape), ctx("expected exactly one counter-posting")));
+        }
+        if r.fee.is_none() && !fees.is_empty() {
+            return Err((format!("{}/charge-posting/unexpected/{}", via, shape), ctx("row has no charge but a charge posting was booked")));
+        }
+        if g.posts.iter().any(|p| p.odd_cost) {
+            return Err((format!("{}/rate/not-a-unit-rate/{}", via, convshape), ctx("a cost other than a plain '@ rate' was emitted")));
+        }
+        let (a, c) = (acct[0], others[0]);
+        // --- account posting: sign, amount, commodity
+        match &a.amount {
+            None => return Err((format!("{}/account-posting/no-amount/{}", via, shape), ctx("account posting without amount"))),
+            Some((v, ccy)) => {
+                if *ccy != r.ccy {
+                    return Err((format!("{}/account-posting/commodity/{}", via, shape), ctx(&format!("account posting should be in {}", r.ccy))));
+                }
+                if *v != r.posting {
+                    let kind = if *v == r.posting.neg() { "sign" } else { "amount" };
+                    return Err((format!("{}/account-posting/{}/{}", via, kind, shape), ctx(&format!("account posting should be {} {}", r.posting, r.ccy))));
+                }
+            }
+        }
+        // --- counter-posting
+        match &c.amount {
+            None => return Err((format!("{}/counter-posting/no-amount/{}", via, convshape), ctx("counter-posting without amount"))),
+            Some((v, ccy)) => {
+                if *ccy != r.counter_ccy {
+                    return Err((format!("{}/counter-posting/commodity/{}", via, convshape), ctx(&format!("counter-posting should be in {}", r.counter_ccy))));
+                }
+                if !r.counter_values.contains(v) {
+                    let kind = if r.counter_values.iter().any(|x| x.neg() == *v) { "sign" } else { "amount" };
+                    let want: Vec<String> = r.counter_values.iter().map(|x| format!("{} {}", x, r.counter_ccy)).collect();
+                    return Err((format!("{}/counter-posting/{}/{}", via, kind, convshape), ctx(&format!("counter-posting should be {}", want.join(" or ")))));
+                }
+            }
+        }
+        // --- rate attached to the commodity it prices
+        let rate_eq = |got: &Option<(Q, String)>, want: &Option<(String, Q)>| match (got, want) {
+            (None, None) => true,
+            (Some((q, c)), Some((wc, wq))) => q == wq && c == wc,
+            _ => false,
+        };
+        if !rate_eq(&a.rate, &r.acct_rate) || !rate_eq(&c.rate, &r.counter_rate) {
+            let kind = match (&a.rate, &c.rate, &r.acct_rate, &r.counter_rate) {
+                (None, None, _, _) => "missing",
+                (_, _, None, None) => "unexpected",
+                (Some(_), None, None, Some(_)) | (None, Some(_), Some(_), None) => "on-wrong-posting",
+                _ => "value",
+            };
+            let want = match (&r.acct_rate, &r.counter_rate) {
+                (Some((c, q)), _) => format!("'@ {} {}' on the account posting ({})", q, c, r.ccy),
+                (_, Some((c, q))) => format!("'@ {} {}' on the counter-posting ({})", q, c, r.counter_ccy),
+                _ => "no rate".to_string(),
+            };
+            return Err((format!("{}/rate/{}/{}", via, kind, convshape), ctx(&format!("expected {}", want))));
+        }
+        // --- running balance -> assertion on the account posting
+        if c.assertion.is_some() || fees.iter().any(|p| p.assertion.is_some()) {
+            return Err((format!("{}/assertion/not-on-account-posting/{}", via, shape), ctx("a balance assertion was placed on a posting other than the account's")));
+        }
+        match (&r.assertion, &a.assertion) {
+            (AssertExp::Absent, None) => {}
+            (AssertExp::Absent, Some(_)) => return Err((format!("{}/assertion/unexpected/{}", via, shape), ctx("no running balance in the row but an assertion was emitted"))),
+            (_, None) => return Err((format!("{}/assertion/missing/{}", via, shape), ctx("the running balance did not become an assertion on the account posting"))),
+            (AssertExp::Exact(wc, wq), Some((q, cc))) => {
+                if q != wq || cc != wc {
+                    return Err((format!("{}/assertion/value/{}", via, shape), ctx(&format!("assertion should be = {} {}", wq, wc))));
+                }
+            }
+            (AssertExp::Magnitude(wc, wq), Some((q, cc))) => {
+                if q.abs() != wq.abs() || cc != wc {
+                    return Err((format!("{}/assertion/value/{}", via, shape), ctx(&format!("assertion should be = +-{} {}", wq, wc))));
+                }
+            }
+        }
+    }
+    Ok(())
+}
+
+// ------------------------------------------------------------------------------------------
+// Running the real importer
+
+/// Scratch files of one worker: `cfgN.yml` and the statement `c16stmt.csv` that ImportCmd opens by path.
+/// Creating or re-writing a file costs 1.5-3 ms on the scratch file system (ext4 allocates at close when a file
+/// is replaced by truncation), 10x everything else in a case; so where the kernel offers it the statement
+/// lives in an anonymous memory file and `c16stmt.csv` is a symbolic link to it (/proc/self/fd/N).
+struct Files {
+    dir: PathBuf,
+    written_cfg: Option<usize>,
+    source: PathBuf,
+    mem: Option<std::fs::File>,
+}
+
+impl Files {
+    fn new() -> Files {
+        use std::os::unix::io::FromRawFd;
+        let dir = oka::scratch_dir("c16");
+        let source = dir.join("c16stmt.csv");
+        let _ = std::fs::remove_file(&source);
+        let name = std::ffi::CString::new("c16stmt").unwrap();
+        let fd = unsafe { libc::memfd_create(name.as_ptr(), 0) };
+        let mut mem = None;
+        if fd >= 0 {
+            let f = unsafe { std::fs::File::from_raw_fd(fd) };
+            if std::os::unix::fs::symlink(format!("/proc/self/fd/{}", fd), &source).is_ok() && std::fs::File::open(&source).is_ok() {
+                mem = Some(f);
+            } else {
+                let _ = std::fs::remove_file(&source);
+            }
+        }
+        Files { dir, written_cfg: None, source, mem }
+    }
+    fn put_statement(&self, csv: &str) {
+        use std::os::unix::fs::FileExt;
+        match &self.mem {
+            Some(f) => {
+                f.set_len(0).expect("scratch csv");
+                f.write_all_at(csv.as_bytes(), 0).expect("scratch csv");
+            }
+            None => std::fs::write(&self.source, csv).expect("scratch csv"),
+        }
+    }
+}
+
+fn err_chain(e: &dyn std::error::Error) -> String {
+    let mut s = e.to_string();
+    let mut cur = e.source();
+    while let Some(c) = cur {
+        s.push_str(": ");
+        s.push_str(&c.to_string());
+        cur = c.source();
+    }
+    s
+}
+
+fn import_tree(entry: &icfg::ConfigEntry, csv: &str) -> Result<Vec<ObsTxn>, String> {
+    let txns = import::import(csv.as_bytes(), Format::Csv, entry).map_err(|e| format!("import: {}", err_chain(&e)))?;
+    let mut out = vec![];
+    for t in &txns {
+        let d = t.to_double_entry(&entry.account).map_err(|e| format!("to_double_entry: {}", err_chain(&e)))?;
+        out.push(observe(&d));
+    }
+    Ok(out)
+}
+
+fn import_text(files: &Files, cfg_index: usize, csv: &str) -> Result<String, String> {
+    let cfg_path = files.dir.join(format!("cfg{}.yml", cfg_index));
+    files.put_statement(csv);
+    let mut out: Vec<u8> = vec![];
+    okane::cmd::ImportCmd { config: cfg_path, source: files.source.clone() }.run(&mut out).map_err(|e| format!("ImportCmd: {}", err_chain(&e)))?;
+    String::from_utf8(out).map_err(|e| format!("output not UTF-8: {}", e))
+}
+
+fn parse_text(text: &str) -> Result<Vec<ObsTxn>, String> {
+    let mut out = vec![];
+    for r in parse_ledger::<plain::Ident>(&ParseOptions::default(), text) {
+        match r {
+            Ok((_, syntax::LedgerEntry::Txn(t))) => out.push(observe(&t)),
+            Ok((_, _)) => return Err("printed output contains an entry that is not a transaction".into()),
+            Err(e) => return Err(format!("printed output does not parse: {}", e.to_string().lines().next().unwrap_or(""))),
+        }
+    }
+    Ok(out)
+}
+
+fn funding(cfg: &Cfg, st: &RefStatement) -> String {
+    let mut s = String::from("2024/01/01 * opening balance\n");
+    for c in &st.commodities {
+        s.push_str(&format!("    {}    {} {}\n", cfg.account(), opening(c), c));
+        s.push_str(&format!("    Equity:Opening    -{} {}\n", opening(c), c));
+    }
+    s.push('\n');
+    s
+}
+
+fn first_line(s: &str) -> String {
+    s.lines().filter(|l| !l.trim().is_empty()).take(3).collect::<Vec<_>>().join(" / ")
+}
+
+fn run_case(cfg: &Cfg, cfg_index: usize, entry: &icfg::ConfigEntry, files: &Files, st: &RefStatement, csv: &str, transitions: &mut u64, validated: &mut u64) -> Outcome {
+    let shape_all = {
+        let mut fl: Vec<&str> = vec![];
+        if st.rows.iter().any(|r| r.fee.is_some()) {
+            fl.push("charge");
+        }
+        if st.rows.iter().any(|r| r.letter.conv) {
+            fl.push("conv-row");
+        }
+        if st.rows.iter().any(|r| r.letter.other) {
+            fl.push("eur-row");
+        }
+        if st.rows.iter().any(|r| r.letter.kind == Kind::Zero) {
+            fl.push("zero-row");
+        }
+        if fl.is_empty() {
+            "plain".to_string()
+        } else {
+            fl.join("+")
+        }
+    };
+    // (1) tree
+    let tree = match import_tree(entry, csv) {
+        Ok(t) => t,
+        Err(e) => return Outcome::violation(format!("tree/import-failed/{}/{}", cfg.conv().name(), shape_all), format!("well-formed statement was not imported: {}", e)),
+    };
+    *transitions += tree.len() as u64;
+    if let Err((sig, detail)) = judge("tree", cfg, st, &tree) {
+        return Outcome::violation(sig, detail);
+    }
+    // (2) printed text through the command
+    let text = match import_text(files, cfg_index, csv) {
+        Ok(t) => t,
+        Err(e) => return Outcome::violation(format!("text/import-failed/{}/{}", cfg.conv().name(), shape_all), format!("ImportCmd failed on a statement the library imported: {}", e)),
+    };
+    let parsed = match parse_text(&text) {
+        Ok(p) => p,
+        Err(e) => return Outcome::violation(format!("text/unreadable/{}", shape_all), format!("{}\n{}", e, text)),
+    };
+    *transitions += parsed.len() as u64;
+    if let Err((sig, detail)) = judge("text", cfg, st, &parsed) {
+        return Outcome::violation(sig, detail);
+    }
+    // (3) end to end: asset account, running balance column
+    let acct = if cfg.liability() { "liability" } else { "asset" };
+    let definite = st.rows.iter().all(|r| r.definite);
+    let e2e = if cfg.liability() {
+        "e2e-na-liability"
+    } else {
+        let ledger = format!("{}{}", funding(cfg, st), text);
+        let res = oka::process_text(&ledger);
+        if !cfg.bal_col() {
+            // statement has no running balance: the clause does not apply; executed for crashes only
+            match res {
+                Ok(_) => "e2e-na-no-balance-col(accepted)",
+                Err(_) => "e2e-na-no-balance-col(rejected)",
+            }
+        } else if st.has_wrong_balance {
+            match res {
+                Err(_) => "e2e-wrong-balance-rejected",
+                Ok(_) => return Outcome::violation(format!("e2e/inconsistent-balance-accepted/{}", shape_all), format!("a statement with a wrong running balance imports into a ledger that is accepted, so the column did not become an effective assertion\n{}", ledger)),
+            }
+        } else {
+            match res {
+                Err(e) => {
+                    // name the row whose transaction okane rejects: the error points at a line of the ledger text
+                    let culprit = oka::rendered_location(&e.rendered).and_then(|(_, line, _)| {
+                        let headers = ledger.lines().take(line).filter(|l| l.starts_with(|c: char| c.is_ascii_digit())).count();
+                        headers.checked_sub(2).and_then(|i| st.rows.get(i))
+                    });
+                    let row_shape = match culprit {
+                        None => "row-unknown".to_string(),
+                        Some(r) => {
+                            let mut fl: Vec<&str> = vec![];
+                            if r.fee.is_some() {
+                                fl.push("charge");
+                            }
+                            if r.letter.other {
+                                fl.push("eur");
+                            }
+                            if r.letter.kind == Kind::Zero {
+                                fl.push("zero");
+                            }
+                            if fl.is_empty() {
+                                fl.push("plain");
+                            }
+                            format!("{}-row/{}", fl.join("+"), if r.letter.conv && cfg.conv().applies() { cfg.conv().name() } else { "no-conversion" })
+                        }
+                    };
+                    return Outcome::violation(
+                        format!("e2e/consistent-statement-rejected/{}/{}", e.variant, row_shape),
+                        format!("consistent running balance, but okane rejects its own import output{}: {}\n{}", culprit.map(|r| format!(" at row '{}' ({})", r.id, r.letter.name())).unwrap_or_default(), first_line(&e.rendered), ledger),
+                    );
+                }
+                Ok((bal, _)) => {
+                    let got = bal.get(cfg.account()).cloned().unwrap_or_default();
+                    if got != st.final_balance {
+                        return Outcome::violation(
+                            format!("e2e/final-balance/{}/{}", cfg.conv().name(), shape_all),
+                            format!("account ends at {} but the statement's last balance is {}\n{}", qmap_show(&got), qmap_show(&st.final_balance), ledger),
+                        );
+                    }
+                    "e2e-accepted-final-balance-ok"
+                }
+            }
+        }
+    };
+    let class = format!("{}/{}/{}{}", acct, cfg.conv().name(), e2e, if definite { "" } else { "/partly-dont-care" });
+    if definite {
+        *validated += 1;
+    }
+    Outcome::pass(class)
+}
+
+fn run(ctx: &mut Ctx) {
+    let d = ctx.tier.pick(2usize, 3usize);
+    let ctx_tier_is_thorough = ctx.tier.pick(false, true);
+    // rows per statement: <= 3; thorough: <= 4 for configurations with <= 1 deviation (the full product
+    // d<=3 x n<=4 is > 20 M imports, beyond the 10-minute budget)
+    let rows_for = |c: &Cfg| -> u32 {
+        match ctx_tier_is_thorough {
+            true if c.deviations() <= 1 => 4,
+            _ => 3,
+        }
+    };
+    let cfgs = configs(d);
+    let mut files = Files::new();
+    let mut total_statements = 0u64;
+    let mut max_alpha = 0usize;
+    for (ci, cfg) in cfgs.iter().enumerate() {
+        let alpha = alphabet(cfg);
+        max_alpha = max_alpha.max(alpha.len());
+        let a = alpha.len() as u64;
+        let max_rows = rows_for(cfg);
+        let n_stmt: u64 = (0..=max_rows).map(|n| statements_of_len(a, n)).sum();
+        total_statements += n_stmt;
+        let yaml = config_yaml(cfg);
+        let mut entry: Option<icfg::ConfigEntry> = None;
+        for k in 0..n_stmt {
+            if !ctx.next_is_mine() {
+                ctx.skip_cases(1);
+                continue;
+            }
+            if entry.is_none() {
+                let set = icfg::load_from_yaml(yaml.as_bytes()).unwrap_or_else(|e| panic!("harness bug: configuration does not load: {}\n{}", err_chain(&e), yaml));
+                let e = set.select(std::path::Path::new("/x/c16stmt.csv")).expect("harness bug: select").expect("harness bug: no matching configuration");
+                entry = Some(e);
+            }
+            if files.written_cfg != Some(ci) {
+                std::fs::write(files.dir.join(format!("cfg{}.yml", ci)), &yaml).expect("scratch config");
+                files.written_cfg = Some(ci);
+            }
+            let (li, same) = decode_statement(k, a, max_rows);
+            let letters: Vec<Letter> = li.iter().map(|i| alpha[*i]).collect();
+            let st = ref_import(cfg, &letters, &same);
+            let csv = csv_text(cfg, &st);
+            let mut transitions = 0u64;
+            let mut validated = 0u64;
+            let entry_ref = entry.as_ref().unwrap();
+            let desc_cfg = cfg.describe();
+            ctx.case(
+                || {
+                    let names: Vec<String> = st.rows.iter().map(|r| format!("{}@{}", r.letter.name(), r.date)).collect();
+                    format!("config #{} [{}], statement [{}]\n--- config\n{}--- csv\n{}", ci, desc_cfg, names.join(", "), yaml, csv)
+                },
+                || run_case(cfg, ci, entry_ref, &files, &st, &csv, &mut transitions, &mut validated),
+            );
+            ctx.count("transitions", transitions);
+            ctx.count("validated", validated);
+        }
+    }
+    ctx.fact("configurations", cfgs.len() as u64);
+    ctx.fact("max_deviations", d as u64);
+    ctx.fact("max_rows", ctx.tier.pick(3u64, 4u64));
+    ctx.fact("max_rows_for_configurations_with_2_or_more_deviations", 3u64);
+    ctx.fact("max_alphabet", max_alpha as u64);
+    ctx.fact("config_x_statement", total_statements);
+    for k in 0..=d {
+        ctx.fact(&format!("configurations_with_{}_deviations", k), cfgs.iter().filter(|c| c.deviations() == k).count() as u64);
+    }
+}
